@@ -110,6 +110,83 @@ def abi_mismatch(w):
     return None
 
 
+def marks_mismatch(w):
+    """visibility, derives, packing and doc comments of the emitted text against the resolved model (C17); returns a description of the first
+    difference or None.  prettyplease output is regular: attributes, then `/// doc` lines, then the declaration."""
+    text = w.text
+    lines = text.split('\n')
+    def docs_above(idx):
+        out = []; j = idx - 1
+        while j >= 0 and lines[j].strip().startswith('///'):
+            out.insert(0, lines[j].strip()[3:]); j -= 1
+        return out, j
+    def find_line(pattern, start=0, end=None):
+        rx = re.compile(pattern)
+        for i in range(start, end if end is not None else len(lines)):
+            if rx.match(lines[i]): return i
+        return None
+    def want_docs(doc): return [] if doc is None else doc.split('\n')
+    expected_counts = {}
+    def note(doc):
+        for l in want_docs(doc): expected_counts[l] = expected_counts.get(l, 0) + 1
+    mod = [m for m in w.summary[1] if m[1] == 'm'][0]
+    got_mod = [l.strip()[3:] for l in lines if l.strip().startswith('//!')]
+    if got_mod != want_docs(mod[2]): return 'module doc: emitted %r, resolved %r' % (got_mod, want_docs(mod[2]))
+    note(mod[2])
+    for path, it in sorted(w.items.items()):
+        if not path.startswith('m::') or it[3] != 'defined' or it[4][0] != 'resolved': continue
+        nm = path[3:]; inner = it[4][3]; kw = 'struct' if inner[0] == 'type' else 'enum'
+        di = find_line(r'^(pub )?%s %s \{' % (kw, re.escape(nm)))
+        if di is None: return '%s %s not found in the emitted text' % (kw, nm)
+        if lines[di].startswith('pub ') != (it[2] == 'pub'): return '%s %s: emitted %s, resolved %s' % (kw, nm, 'pub' if lines[di].startswith('pub ') else 'private', it[2])
+        docs, j = docs_above(di)
+        if docs != want_docs(inner[2]): return '%s %s docs: emitted %r, resolved %r' % (kw, nm, docs, want_docs(inner[2]))
+        note(inner[2])
+        attrs = []
+        while j >= 0 and lines[j].startswith('#['): attrs.append(lines[j]); j -= 1
+        derive = ' '.join(a for a in attrs if a.startswith('#[derive'))
+        derived = set(re.findall(r'\b(Copy|Clone|Default)\b', derive))
+        cp, cl, df = (inner[6], inner[7], inner[8]) if inner[0] == 'type' else (inner[5], inner[6], inner[7])
+        want = set(n for n, b in (('Copy', cp), ('Clone', cl), ('Default', df)) if b)
+        if derived != want: return '%s %s derives: emitted %s, resolved %s' % (kw, nm, sorted(derived), sorted(want))
+        if inner[0] == 'type':
+            reprs = ' '.join(a for a in attrs if a.startswith('#[repr'))
+            if bool(inner[9]) != ('packed' in reprs): return 'struct %s: packed in the model %s, emitted repr %s' % (nm, bool(inner[9]), reprs)
+            if inner[9] and 'align(' in reprs: return 'struct %s: packed type emitted with an alignment attribute: %s' % (nm, reprs)
+            end = find_line(r'^\}', di)
+            for r in inner[1]:
+                fi = find_line(r'^    (pub )?%s: ' % re.escape(r[2]), di, end)
+                if fi is None: return 'field %s.%s not found' % (nm, r[2])
+                is_pub = lines[fi].startswith('    pub ')
+                if is_pub != (r[1] == 'pub'): return 'field %s.%s: emitted %s, resolved %s' % (nm, r[2], 'pub' if is_pub else 'private', r[1])
+                fdocs, _ = docs_above(fi)
+                if fdocs != want_docs(r[3]): return 'field %s.%s docs: emitted %r, resolved %r' % (nm, r[2], fdocs, want_docs(r[3]))
+                note(r[3])
+            fns = list(inner[3]) + (list(inner[4][0]) if inner[4] is not None else [])
+            for f in fns:
+                if f[2].startswith('_'): continue
+                fi = None
+                for i, l in enumerate(lines):
+                    if re.match(r'^    (pub )?unsafe fn %s\(' % re.escape(f[2]), l):
+                        # the enclosing impl block must be this type's
+                        k = i
+                        while k >= 0 and not lines[k].startswith('impl '): k -= 1
+                        if k >= 0 and re.match(r'^impl %s \{' % re.escape(nm), lines[k]): fi = i; break
+                if fi is None: return 'function %s::%s not found' % (nm, f[2])
+                is_pub = lines[fi].startswith('    pub ')
+                if is_pub != (f[1] == 'pub'): return 'function %s::%s: emitted %s, resolved %s' % (nm, f[2], 'pub' if is_pub else 'private', f[1])
+                fdocs, _ = docs_above(fi)
+                if fdocs != want_docs(f[3]): return 'function %s::%s docs: emitted %r, resolved %r' % (nm, f[2], fdocs, want_docs(f[3]))
+                note(f[3])
+    # a doc line appears on the counterparts of its item and nowhere else
+    for l, n in expected_counts.items():
+        got = sum(1 for x in lines if x.strip() in ('///' + l, '//!' + l))
+        if got != n: return 'doc line %r occurs %d times in the emitted text, %d expected' % (l, got, n)
+    stray = [x.strip() for x in lines if x.strip().startswith('///') and x.strip()[3:] not in expected_counts]
+    if stray: return 'doc line on an item that has none in the model: %s' % stray[0]
+    return None
+
+
 # ------------------------------------------------------------------ harness generation
 def gen_harness(w, modprefix, kinds=None):
     """Rust text of `mod proofs` for one emitted module `m`; returns (text, [harness names], facts)"""
@@ -121,7 +198,12 @@ def gen_harness(w, modprefix, kinds=None):
            '    pub trait NoRef { const HAS_REF: bool = false; }', '    impl<T, U> NoRef for Probe<T, U> {}',
            '    impl<T: AsRef<U>, U> Probe<T, U> { pub const HAS_REF: bool = true; }',
            '    pub trait NoMut { const HAS_MUT: bool = false; }', '    impl<T, U> NoMut for Probe<T, U> {}',
-           '    impl<T: AsMut<U>, U> Probe<T, U> { pub const HAS_MUT: bool = true; }']
+           '    impl<T: AsMut<U>, U> Probe<T, U> { pub const HAS_MUT: bool = true; }',
+           '    // derive probes: is `T: Copy` / `Clone` / `Default` implemented?',
+           '    pub struct Marks<T>(core::marker::PhantomData<T>);',
+           '    pub trait NoCopy { const HAS_COPY: bool = false; }', '    impl<T> NoCopy for Marks<T> {}', '    impl<T: Copy> Marks<T> { pub const HAS_COPY: bool = true; }',
+           '    pub trait NoClone { const HAS_CLONE: bool = false; }', '    impl<T> NoClone for Marks<T> {}', '    impl<T: Clone> Marks<T> { pub const HAS_CLONE: bool = true; }',
+           '    pub trait NoDefault { const HAS_DEFAULT: bool = false; }', '    impl<T> NoDefault for Marks<T> {}', '    impl<T: Default> Marks<T> { pub const HAS_DEFAULT: bool = true; }']
     names = []; facts = []
     items = w.items
     for path, it in sorted(items.items()):
@@ -150,6 +232,18 @@ def gen_harness(w, modprefix, kinds=None):
             h = 'enum_%s' % nm
             out += ['    #[kani::proof]', '    fn %s() {' % h] + lines + ['    }']
             names.append(h)
+    # ---- marker attributes (C17): the derives rustc sees are exactly the ones the resolved model carries
+    for path, it in sorted(items.items()):
+        if not path.startswith('m::') or it[3] != 'defined' or it[4][0] != 'resolved': continue
+        nm = path[3:]; inner = it[4][3]
+        cp, cl, df = (inner[6], inner[7], inner[8]) if inner[0] == 'type' else (inner[5], inner[6], inner[7])
+        tf = lambda b: 'true' if b else 'false'
+        lines = ['        assert_eq!(<Marks<%s>>::HAS_COPY, %s);' % (nm, tf(cp)), '        assert_eq!(<Marks<%s>>::HAS_CLONE, %s);' % (nm, tf(cl)),
+                 '        assert_eq!(<Marks<%s>>::HAS_DEFAULT, %s);' % (nm, tf(df))]
+        if inner[0] == 'type' and inner[9]: lines.append('        assert_eq!(align_of::<%s>(), 1);' % nm)
+        h = 'marks_%s' % nm
+        out += ['    #[kani::proof]', '    fn %s() {' % h] + lines + ['    }']
+        names.append(h)
     # ---- dispatch through vftables
     out += ['    static mut LOG_ID: usize = 0;', '    static mut LOG_THIS: usize = 0;', '    static mut LOG_ARGS: [u64; 8] = [0; 8];',
             '    static mut LOG_CALLS: usize = 0;',
